@@ -89,6 +89,22 @@ struct Shared {
 /// errors for unknown connection ids and unparsable addresses) but every outcome is injected.
 pub(crate) struct ScriptedTransport {
     shared: Arc<Mutex<Shared>>,
+    /// Parse dialed addresses the way the WebSocket transport does (second scripted transport).
+    ws: bool,
+}
+
+#[cfg(feature = "websocket")]
+fn ws_parse(
+    address: &Multiaddr,
+) -> Result<(crate::transport::common::listener::AddressType, Option<PeerId>), AddressError> {
+    crate::transport::common::listener::WebSocketAddress::multiaddr_to_socket_address(address)
+}
+
+#[cfg(not(feature = "websocket"))]
+fn ws_parse(
+    address: &Multiaddr,
+) -> Result<(crate::transport::common::listener::AddressType, Option<PeerId>), AddressError> {
+    TcpAddress::multiaddr_to_socket_address(address)
 }
 
 fn no_conn(cid: ConnectionId) -> Error {
@@ -98,7 +114,11 @@ fn no_conn(cid: ConnectionId) -> Error {
 impl Transport for ScriptedTransport {
     fn dial(&mut self, connection_id: ConnectionId, address: Multiaddr) -> crate::Result<()> {
         let cid = connection_id.verif_as_usize();
-        let parsed = TcpAddress::multiaddr_to_socket_address(&address);
+        let parsed = if self.ws {
+            ws_parse(&address)
+        } else {
+            TcpAddress::multiaddr_to_socket_address(&address)
+        };
         let mut s = self.shared.lock();
         s.calls.push(Call::Dial { cid, address, ok: parsed.is_ok() });
         let (_, peer) = parsed?;
@@ -228,6 +248,8 @@ pub struct PeerView {
 pub struct ManagerHarness {
     manager: TransportManager,
     shared: Arc<Mutex<Shared>>,
+    /// Second scripted transport (registered as WebSocket), see [`ManagerHarness::new_two`].
+    shared_ws: Option<Arc<Mutex<Shared>>>,
     services: Vec<TransportService>,
     local: PeerId,
 }
@@ -263,13 +285,73 @@ impl ManagerHarness {
         let shared = Arc::new(Mutex::new(Shared::default()));
         manager.register_transport(
             SupportedTransport::Tcp,
-            Box::new(ScriptedTransport { shared: shared.clone() }),
+            Box::new(ScriptedTransport { shared: shared.clone(), ws: false }),
         );
         for address in listen {
             manager.register_listen_address(address);
         }
         let local = manager.verif_local_peer_id();
-        Self { manager, shared, services, local }
+        Self { manager, shared, shared_ws: None, services, local }
+    }
+
+    /// Like [`ManagerHarness::new`] with a second scripted transport registered as WebSocket:
+    /// `/ws` addresses are then dialable and a dial by peer id may open on both transports.
+    /// Transport index 0 is the TCP one, 1 the WebSocket one (the `*_on` methods).
+    #[cfg(feature = "websocket")]
+    pub fn new_two(
+        max_incoming: Option<usize>,
+        max_outgoing: Option<usize>,
+        protocols: usize,
+        listen: Vec<Multiaddr>,
+    ) -> Self {
+        let mut manager = TransportManagerBuilder::new()
+            .with_supported_transports(
+                [SupportedTransport::Tcp, SupportedTransport::WebSocket].into_iter().collect(),
+            )
+            .with_connection_limits_config(
+                ConnectionLimitsConfig::default()
+                    .max_incoming_connections(max_incoming)
+                    .max_outgoing_connections(max_outgoing),
+            )
+            .build();
+        let services = (0..protocols)
+            .map(|i| {
+                manager.register_protocol(
+                    ProtocolName::from(format!("/verif/{i}")),
+                    Vec::new(),
+                    ProtocolCodec::UnsignedVarint(None),
+                    Duration::from_secs(3600),
+                    SubstreamKeepAlive::Yes,
+                )
+            })
+            .collect();
+        let shared = Arc::new(Mutex::new(Shared::default()));
+        let shared_ws = Arc::new(Mutex::new(Shared::default()));
+        manager.register_transport(
+            SupportedTransport::Tcp,
+            Box::new(ScriptedTransport { shared: shared.clone(), ws: false }),
+        );
+        manager.register_transport(
+            SupportedTransport::WebSocket,
+            Box::new(ScriptedTransport { shared: shared_ws.clone(), ws: true }),
+        );
+        for address in listen {
+            manager.register_listen_address(address);
+        }
+        let local = manager.verif_local_peer_id();
+        Self { manager, shared, shared_ws: Some(shared_ws), services, local }
+    }
+
+    /// Number of scripted transports (1 or 2).
+    pub fn transports(&self) -> usize {
+        1 + self.shared_ws.is_some() as usize
+    }
+
+    fn shared_of(&self, tr: usize) -> Arc<Mutex<Shared>> {
+        match tr {
+            0 => self.shared.clone(),
+            _ => self.shared_ws.clone().expect("second transport registered"),
+        }
     }
 
     /// Local peer id of the manager.
@@ -310,8 +392,9 @@ impl ManagerHarness {
         self.services[proto].dial_address(address).map_err(|e| format!("{e:?}"))
     }
 
-    fn push(&mut self, event: TransportEvent) {
-        let mut s = self.shared.lock();
+    fn push_on(&mut self, tr: usize, event: TransportEvent) {
+        let shared = self.shared_of(tr);
+        let mut s = shared.lock();
         s.queue.push_back(event);
         if let Some(w) = s.waker.take() {
             w.wake();
@@ -320,46 +403,74 @@ impl ManagerHarness {
 
     /// Peer the scripted transport would authenticate for a `dial()`ed connection.
     pub fn dial_expected_peer(&self, cid: usize) -> Option<Option<PeerId>> {
-        self.shared.lock().dial_expected.get(&cid).cloned()
+        if let Some(found) = self.shared.lock().dial_expected.get(&cid).cloned() {
+            return Some(found);
+        }
+        self.shared_ws.as_ref().and_then(|s| s.lock().dial_expected.get(&cid).cloned())
     }
 
     /// Transport outcome: connection `cid` fully negotiated with `peer`.
     pub fn inject_established(&mut self, peer: PeerId, cid: usize, listener: bool, address: Multiaddr) {
-        self.shared.lock().pending_open.insert(cid);
+        self.inject_established_on(0, peer, cid, listener, address)
+    }
+
+    /// [`ManagerHarness::inject_established`] on transport `tr`.
+    pub fn inject_established_on(&mut self, tr: usize, peer: PeerId, cid: usize, listener: bool, address: Multiaddr) {
+        self.shared_of(tr).lock().pending_open.insert(cid);
         let endpoint = if listener {
             Endpoint::listener(address, ConnectionId::from(cid))
         } else {
             Endpoint::dialer(address, ConnectionId::from(cid))
         };
-        self.push(TransportEvent::ConnectionEstablished { peer, endpoint });
+        self.push_on(tr, TransportEvent::ConnectionEstablished { peer, endpoint });
     }
 
     /// Transport outcome: single-address dial `cid` failed.
     pub fn inject_dial_failure(&mut self, cid: usize, address: Multiaddr, kind: ErrKind) {
+        self.inject_dial_failure_on(0, cid, address, kind)
+    }
+
+    /// [`ManagerHarness::inject_dial_failure`] on transport `tr`.
+    pub fn inject_dial_failure_on(&mut self, tr: usize, cid: usize, address: Multiaddr, kind: ErrKind) {
         let e = dial_error(kind, self.local, self.local);
-        self.push(TransportEvent::DialFailure { connection_id: ConnectionId::from(cid), address, error: e });
+        self.push_on(tr, TransportEvent::DialFailure { connection_id: ConnectionId::from(cid), address, error: e });
     }
 
     /// Transport outcome: `open()` for `cid` reached `address` (others failed with `errors`).
     pub fn inject_opened(&mut self, cid: usize, address: Multiaddr, errors: Vec<(Multiaddr, ErrKind)>) {
-        self.shared.lock().opened.insert(cid);
+        self.inject_opened_on(0, cid, address, errors)
+    }
+
+    /// [`ManagerHarness::inject_opened`] on transport `tr`.
+    pub fn inject_opened_on(&mut self, tr: usize, cid: usize, address: Multiaddr, errors: Vec<(Multiaddr, ErrKind)>) {
+        self.shared_of(tr).lock().opened.insert(cid);
         let local = self.local;
         let errors = errors.into_iter().map(|(a, k)| (a, dial_error(k, local, local))).collect();
-        self.push(TransportEvent::ConnectionOpened { connection_id: ConnectionId::from(cid), address, errors });
+        self.push_on(tr, TransportEvent::ConnectionOpened { connection_id: ConnectionId::from(cid), address, errors });
     }
 
     /// Transport outcome: `open()` for `cid` failed on every address.
     pub fn inject_open_failure(&mut self, cid: usize, errors: Vec<(Multiaddr, ErrKind)>) {
+        self.inject_open_failure_on(0, cid, errors)
+    }
+
+    /// [`ManagerHarness::inject_open_failure`] on transport `tr`.
+    pub fn inject_open_failure_on(&mut self, tr: usize, cid: usize, errors: Vec<(Multiaddr, ErrKind)>) {
         let local = self.local;
         let errors = errors.into_iter().map(|(a, k)| (a, dial_error(k, local, local))).collect();
-        self.push(TransportEvent::OpenFailure { connection_id: ConnectionId::from(cid), errors });
+        self.push_on(tr, TransportEvent::OpenFailure { connection_id: ConnectionId::from(cid), errors });
     }
 
     /// Transport event: a pending inbound socket; returns its freshly allocated connection id.
     pub fn inject_pending_inbound(&mut self) -> usize {
+        self.inject_pending_inbound_on(0)
+    }
+
+    /// [`ManagerHarness::inject_pending_inbound`] on transport `tr`.
+    pub fn inject_pending_inbound_on(&mut self, tr: usize) -> usize {
         let cid = self.manager.verif_next_connection_id().verif_as_usize();
-        self.shared.lock().pending_inbound.insert(cid);
-        self.push(TransportEvent::PendingInboundConnection { connection_id: ConnectionId::from(cid) });
+        self.shared_of(tr).lock().pending_inbound.insert(cid);
+        self.push_on(tr, TransportEvent::PendingInboundConnection { connection_id: ConnectionId::from(cid) });
         cid
     }
 
@@ -367,11 +478,19 @@ impl ManagerHarness {
     /// announcing it and the manager's decision).
     pub fn fail_accept_call(&mut self, cid: usize) {
         self.shared.lock().fail_accept.insert(cid);
+        if let Some(s) = &self.shared_ws {
+            s.lock().fail_accept.insert(cid);
+        }
     }
 
     /// Complete the future returned by `accept(cid)`. Returns false if there is none.
     pub fn resolve_accept(&mut self, cid: usize, ok: bool) -> bool {
-        match self.shared.lock().accept.remove(&cid) {
+        let tx = self.shared.lock().accept.remove(&cid);
+        let tx = match (tx, &self.shared_ws) {
+            (None, Some(s)) => s.lock().accept.remove(&cid),
+            (tx, _) => tx,
+        };
+        match tx {
             Some(tx) => tx.send(ok).is_ok(),
             None => false,
         }
@@ -417,9 +536,14 @@ impl ManagerHarness {
         std::mem::take(&mut self.shared.lock().calls)
     }
 
+    /// Calls made on transport `tr` since the last invocation.
+    pub fn take_calls_on(&mut self, tr: usize) -> Vec<Call> {
+        std::mem::take(&mut self.shared_of(tr).lock().calls)
+    }
+
     /// Number of injected transport events the manager has not consumed yet.
     pub fn queued(&self) -> usize {
-        self.shared.lock().queue.len()
+        self.shared.lock().queue.len() + self.shared_ws.as_ref().map_or(0, |s| s.lock().queue.len())
     }
 
     /// Events observed by protocol `proto` since the last invocation.
